@@ -27,6 +27,8 @@ TAGS3 = TAGS4[1:]
 PAYLOADS = [0x00, 0x5A, 0xA5, 0xFF]
 
 # two header values that differ in every field of the 128-bit header packet, plus zero
+HANDOVER_SLACK = 3       # cycles a registered arbiter may take to move on from an idle input to a waiting one
+
 HDR_VALUES = [0, 0xA5A5A5A5_5A5A5A5A_C3C3C3C3_3C3C3C3C, (1 << 128) - 1 - 0x0F0F0F0F_F0F0F0F0_12345678_9ABCDEF0]
 
 
@@ -172,7 +174,8 @@ class ArbiterSpec(Spec):
             raise Violation("accept:word-corrupted", dict(input=taken[0], sent=word[taken[0]], delivered=sw))
 
         # -- reference arbiter (candidate set).  A candidate is (convention, sel, why-sel): 'h' = sel's valid was held
-        #    through the last cycle (must not switch), 'p' = sel was picked by priority, 'f' = free (nothing was offered).
+        #    through the last cycle (must not switch), 'p' = sel was picked by priority, 'f' = free (nothing was offered),
+        #    'dN' = sel is idle, others wait, the hand-over is pending for N cycles.
         lowest = valid.index(1) if anyv else None
         allsel = range(n)
         nxt = set()
@@ -200,6 +203,9 @@ class ArbiterSpec(Spec):
                 for j in allsel: nxt.add((conv, j, "f"))      # nobody offers: the statement leaves the parking position open
             elif conv == "R":
                 nxt.add((conv, lowest, "p"))                  # registered hand-over to the highest-priority waiting input
+                d = int(reason[1:]) if reason[0] == "d" else 0
+                if d < HANDOVER_SLACK:                        # ... which the statement does not time: it may take a few
+                    nxt.add((conv, eff, f"d{d + 1}"))         #     cycles, the pick being made when it happens
             else:
                 raise AssertionError("unreachable")
         if not nxt:
@@ -208,7 +214,7 @@ class ArbiterSpec(Spec):
             if consistent:
                 reasons = {r for _, _, r in expected}
                 if reasons == {"h"}: raise Violation("arbiter:switched-while-valid-held", detail)
-                if reasons == {"p"}: raise Violation("arbiter:not-highest-priority-waiting", detail)
+                if all(r == "p" or r[0] == "d" for r in reasons): raise Violation("arbiter:not-highest-priority-waiting", detail)
                 raise Violation("arbiter:wrong-input-selected", detail)
             raise Violation("arbiter:" + wiring[0], dict(wiring[1], **detail))
 
